@@ -838,6 +838,10 @@ class Explorer(object):
                 for k in mods:
                     self._bump(st, k)
                 for a in list(st.mem):
+                    r_ = root_of(a)
+                    private = r_[0] == 'call' and r_[1] in self.FRESH and r_ not in st.escaped and r_ not in args
+                    if private:
+                        continue
                     if field_of(a) in mods or (a[0] == 'alloca' and a in args):
                         del st.mem[a]
             for a in args:
